@@ -1852,14 +1852,16 @@ class _Idioms(ast.NodeTransformer):
     return n
 
   @staticmethod
-  def _unrolled(elt, gens):
+  def _unrolled(elt, gens, simple_ok=False):
     """[elt[v:=c] for c in literal constants] for a single, unfiltered generator
     over a literal tuple / list of constants; None otherwise"""
     if len(gens) != 1 or gens[0].ifs or gens[0].is_async or not isinstance(
         gens[0].target, ast.Name) or not isinstance(gens[0].iter, (ast.Tuple, ast.List)):
       return None
     elts = gens[0].iter.elts
-    if not (0 < len(elts) <= 8) or not all(isinstance(e, ast.Constant) for e in elts):
+    if not (0 < len(elts) <= 8) or not all(
+        isinstance(e, ast.Constant) or (simple_ok and _simple(e) and not isinstance(
+            e, ast.Tuple)) for e in elts):
       return None
     v = gens[0].target.id
     if any(isinstance(x, ast.Name) and x.id == v and not isinstance(x.ctx, ast.Load)
@@ -1871,7 +1873,7 @@ class _Idioms(ast.NodeTransformer):
       class R(ast.NodeTransformer):
         def visit_Name(self, x):
           if x.id == v and isinstance(x.ctx, ast.Load):
-            return ast.copy_location(ast.Constant(c.value), x)
+            return ast.copy_location(copy.deepcopy(c), x)
           return x
       out.append(R().visit(copy.deepcopy(elt)))
     return out
@@ -1904,6 +1906,20 @@ class _Idioms(ast.NodeTransformer):
       parts = [chain(a.value) for a in n.func.args]
       new = parts[0] if len(parts) == 1 else ast.Tuple(elts=parts, ctx=ast.Load())
       return self.visit(ast.fix_missing_locations(ast.copy_location(new, n)))
+    # any(v in S for v in (A, b))  ==  A in S or b in S   (boolean-valued element,
+    # pure reads in the literal: same value, same order, same short circuit)
+    if isinstance(n.func, ast.Name) and n.func.id in ('any', 'all') and len(n.args) == 1 \
+        and not n.keywords and isinstance(n.args[0], (ast.GeneratorExp, ast.ListComp)) \
+        and (isinstance(n.args[0].elt, ast.Compare) or (
+            isinstance(n.args[0].elt, ast.UnaryOp) and isinstance(n.args[0].elt.op, ast.Not))
+             or (isinstance(n.args[0].elt, ast.Call) and ast.unparse(
+                 n.args[0].elt.func) in ('isinstance', 'hasattr', 'callable'))):
+      u = self._unrolled(n.args[0].elt, n.args[0].generators,
+                         simple_ok=isinstance(n.args[0], ast.GeneratorExp))
+      if u is not None:
+        new = u[0] if len(u) == 1 else ast.BoolOp(
+            op=ast.Or() if n.func.id == 'any' else ast.And(), values=u)
+        return self.visit(ast.fix_missing_locations(ast.copy_location(new, n)))
     # tuple(E(v) for v in ('a', 'b'))  ==  (E('a'), E('b'))
     if isinstance(n.func, ast.Name) and n.func.id in ('tuple', 'list') and \
         len(n.args) == 1 and not n.keywords and isinstance(
